@@ -621,6 +621,122 @@ def paired_alternatives(fn, op_a, op_b):
     return [(origin(fn, op_a), origin(fn, op_b))]
 
 
+TOP = "?"
+
+
+def forced_result(fn, start, target_local=0):
+    """set of constant values `target_local` (default: the return place) can hold at the returns reachable from block `start`,
+    by forward constant/copy propagation over the sub-graph entered at `start` with nothing known on entry; TOP ("?") stands for
+    any value that is not a compile-time constant on that path.  `{False}` means: once control is at `start`, the function can
+    only return false."""
+    n = len(fn.blocks)
+    state = {start: {}}
+    work = [start]
+    seen_iter = 0
+    while work and seen_iter < 20000:
+        seen_iter += 1
+        b = work.pop()
+        st = dict(state[b])
+        blk = fn.blocks[b]
+        for s_ in blk["stmts"]:
+            if s_["k"] != "assign":
+                continue
+            lhs = s_["lhs"]
+            if lhs.get("p"):
+                st[lhs["l"]] = frozenset([TOP])
+                continue
+            rv = s_["rv"]
+            val = frozenset([TOP])
+            if rv["k"] == "use" and rv.get("ops"):
+                o = rv["ops"][0]
+                if o.get("k") == "const" and "v" in o:
+                    val = frozenset([o["v"]])
+                elif "l" in o and not o.get("p"):
+                    val = st.get(o["l"], frozenset([TOP]))
+            st[lhs["l"]] = val
+        t = blk["term"]
+        if t["k"] == "call":
+            st[t["dest"]["l"]] = frozenset([TOP])
+        for sx in fn.succ(b):
+            if fn.is_cleanup(sx):
+                continue
+            old = state.get(sx)
+            if old is None:
+                state[sx] = dict(st)
+                work.append(sx)
+            else:
+                changed = False
+                for l in set(old) | set(st):
+                    a, c = old.get(l, frozenset([TOP])), st.get(l, frozenset([TOP]))
+                    u = a | c
+                    if u != a or l not in old:
+                        old[l] = u
+                        changed = True
+                if changed:
+                    work.append(sx)
+    out = set()
+    for rb in fn.return_blocks():
+        if rb in state:
+            # the state *after* the return block's own statements
+            st = dict(state[rb])
+            for s_ in fn.blocks[rb]["stmts"]:
+                if s_["k"] == "assign" and not s_["lhs"].get("p"):
+                    rv = s_["rv"]
+                    val = frozenset([TOP])
+                    if rv["k"] == "use" and rv.get("ops"):
+                        o = rv["ops"][0]
+                        if o.get("k") == "const" and "v" in o:
+                            val = frozenset([o["v"]])
+                        elif "l" in o and not o.get("p"):
+                            val = st.get(o["l"], frozenset([TOP]))
+                    st[s_["lhs"]["l"]] = val
+            out |= set(st.get(target_local, frozenset([TOP])))
+    return out
+
+
+def false_forces_false(fn, call):
+    """a bool-valued call's result is used monotonically for the function's own bool result: every use of it (through plain
+    copies) is either handed on towards the return place, or a branch whose `false` edge can only return false.  Returns
+    (ok, reason)"""
+    locs = {call.t["dest"]["l"]}
+    changed = True
+    used = False
+    while changed:
+        changed = False
+        for bi, b in enumerate(fn.blocks):
+            if b.get("cleanup"):
+                continue
+            for s_ in b["stmts"]:
+                if s_["k"] != "assign":
+                    continue
+                rv = s_["rv"]
+                ops = [o for o in rv.get("ops", []) if isinstance(o, dict)]
+                if any(o.get("l") in locs and not o.get("p") for o in ops):
+                    if rv["k"] == "use" and not s_["lhs"].get("p"):
+                        if s_["lhs"]["l"] not in locs:
+                            locs.add(s_["lhs"]["l"])
+                            changed = True
+                    else:
+                        return False, "the result is transformed (%s) before it is used" % rv["k"]
+    if 0 in locs:
+        used = True
+    for bi, b in enumerate(fn.blocks):
+        if b.get("cleanup"):
+            continue
+        t = b["term"]
+        if t["k"] == "switch" and t["discr"].get("l") in locs:
+            used = True
+            false_t = [tb for (v, tb) in t.get("targets", []) if v == 0]
+            if not false_t:
+                return False, "no false edge"
+            fr = forced_result(fn, false_t[0])
+            if fr != {False}:
+                return False, "its false edge can return %s" % sorted(str(x) for x in fr)
+        if t["k"] == "call" and any(isinstance(a, dict) and a.get("l") in locs for a in t.get("args", [])):
+            return False, "the result is passed to %s" % ((t["func"].get("fn") or {}).get("path") or "?").split("::")[-1]
+    return (used, None if used else "the result is not used")
+
+
 def closures_in_term(t, out=None):
     """ids of closure bodies constructed inside a term"""
     if out is None:
